@@ -106,29 +106,32 @@ Proof.
     apply dec_varint_shorter in Ed.
     destruct (s32 (u64 raw / 8) =? 1)%Z.
     { destruct (dec_scalar kk rest1) as [[v r]|] eqn:Es; [|nobad].
-      apply dec_scalar_shorter in Es. intro H. apply IH in H.
+      apply dec_scalar_shorter in Es.
+      destruct (k - (Z.of_nat (length rest) - Z.of_nat (length r)) <? 0)%Z; [nobad|].
+      intro H. apply IH in H.
       destruct H as [[-> Hn]|(m & tg & p & -> & Hl & Hc)].
       - left. split; [reflexivity|]. unfold roomy in *. lia.
       - right. exists m, tg, p. split; [reflexivity|]. split; [lia|exact Hc]. }
     destruct (s32 (u64 raw / 8) =? 2)%Z.
-    { destruct (dec_item child t value rest1) as [[v r]| | |] eqn:Ei; try nobad.
-      - assert (Hr : (length r < length rest1)%nat).
-        { unfold dec_item in Ei. destruct t as [k0|m0].
-          - destruct (dec_scalar k0 rest1) as [[v0 r0]|] eqn:Es; [|discriminate].
-            apply dec_scalar_shorter in Es. injection Ei as _ <-. exact Es.
-          - destruct (take_len rest1) as [[p0 r0]|] eqn:Et; [|discriminate].
-            apply take_len_shorter in Et. destruct (child m0 value p0); try discriminate.
-            injection Ei as _ <-. lia. }
+    { destruct t as [kd|m0].
+      - destruct (dec_scalar kd rest1) as [[v r]|] eqn:Es; [|nobad].
+        apply dec_scalar_shorter in Es.
+        destruct (k - (Z.of_nat (length rest) - Z.of_nat (length r)) <? 0)%Z; [nobad|].
         intro H. apply IH in H.
-        destruct H as [[-> Hn]|(m & tg & p & -> & Hl & Hc)].
-        + left. split; [reflexivity|]. unfold roomy in *. lia.
-        + right. exists m, tg, p. split; [reflexivity|]. split; [lia|exact Hc].
-      - intro H. assert (Hb : b = true) by (destruct b; [reflexivity|discriminate H]). subst b.
-        apply (dec_item_bad _ _ _ _ true) in Ei. destruct Ei as (m & p & -> & Hl & Hc).
-        right. exists m, value, p. split; [reflexivity|]. split; [lia|exact Hc].
-      - intro H. assert (Hb : b = false) by (destruct b; [discriminate H|reflexivity]). subst b.
-        apply (dec_item_bad _ _ _ _ false) in Ei. destruct Ei as (m & p & -> & Hl & Hc).
-        right. exists m, value, p. split; [reflexivity|]. split; [lia|exact Hc]. }
+        destruct H as [[-> Hn]|(m & tg & p & Ht & Hl & Hc)]; [|discriminate Ht].
+        left. split; [reflexivity|]. unfold roomy in *. lia.
+      - destruct (take_len rest1) as [[p0 r]|] eqn:Et; [|nobad].
+        apply take_len_shorter in Et.
+        destruct (k - (Z.of_nat (length rest) - Z.of_nat (length r)) <? 0)%Z; [nobad|].
+        destruct (child m0 value p0) as [v| | |] eqn:Ec; try nobad; intro H.
+        + apply IH in H.
+          destruct H as [[-> Hn]|(m & tg & p & Ht & Hl & Hc)].
+          * left. split; [reflexivity|]. unfold roomy in *. lia.
+          * right. exists m, tg, p. split; [exact Ht|]. split; [lia|exact Hc].
+        + assert (Hb : b = true) by (destruct b; [reflexivity|discriminate H]). subst b.
+          right. exists m0, value, p0. split; [reflexivity|]. split; [lia|exact Ec].
+        + assert (Hb : b = false) by (destruct b; [discriminate H|reflexivity]). subst b.
+          right. exists m0, value, p0. split; [reflexivity|]. split; [lia|exact Ec]. }
     destruct (Skip rest) as [skippy| | |] eqn:Esk; try nobad.
     destruct (k <? skippy)%Z; [nobad|].
     intro H. apply IH in H.
@@ -725,10 +728,18 @@ Proof.
   destruct (dec_varint rest) as [[[raw n] rest1]|]; [|discriminate].
   destruct (s32 (u64 raw / 8) =? 1)%Z.
   { destruct (dec_scalar kk rest1) as [[v0 r0]|] eqn:Es; [|discriminate].
+    destruct (k - (Z.of_nat (length rest) - Z.of_nat (length r0)) <? 0)%Z; [discriminate|].
     apply IH; [|exact Hv]. eapply dec_scalar_wt. exact Es. }
   destruct (s32 (u64 raw / 8) =? 2)%Z.
-  { destruct (dec_item child t value rest1) as [[v0 r0]| | |] eqn:Ei; try discriminate.
-    apply IH; [exact Hk|]. eapply dec_item_wt; [exact Hc| |exact Ei]. apply wt_elem_tg_ok. exact Hv. }
+  { destruct t as [kd|m0].
+    - destruct (dec_scalar kd rest1) as [[v0 r0]|] eqn:Es; [|discriminate].
+      destruct (k - (Z.of_nat (length rest) - Z.of_nat (length r0)) <? 0)%Z; [discriminate|].
+      apply IH; [exact Hk|]. cbn [wt_elem]. eapply dec_scalar_wt. exact Es.
+    - destruct (take_len rest1) as [[p0 r0]|]; [|discriminate].
+      destruct (k - (Z.of_nat (length rest) - Z.of_nat (length r0)) <? 0)%Z; [discriminate|].
+      destruct (child m0 value p0) as [v0| | |] eqn:Ec; try discriminate.
+      apply IH; [exact Hk|]. apply wt_msg_elem. eapply Hc; [|exact Ec].
+      apply (wt_elem_tg_ok sch (TMsg m0)). exact Hv. }
   destruct (Skip rest) as [skippy| | |]; try discriminate.
   destruct (k <? skippy)%Z; [discriminate|].
   apply IH; assumption.
